@@ -8,17 +8,17 @@ export GOFLAGS=-mod=mod GOPROXY=off
 cd $wt || exit 3
 git stash list >/dev/null
 if [ -n "$(git status --short | grep -v '^??')" ]; then echo "worktree not clean"; git status --short; exit 3; fi
-echo "== demo WITHOUT change"; timeout 600 go test -vet=off -count=1 $demo > /tmp/confirm_without.log 2>&1; w=$?; tail -3 /tmp/confirm_without.log
+echo "== demo WITHOUT change"; timeout 600 go test -vet=off -count=1 $demo > /tmp/confirm_$(basename $wt)_without.log 2>&1; w=$?; tail -3 /tmp/confirm_$(basename $wt)_without.log
 git apply _deliver/patch.diff || { echo "patch does not apply"; exit 3; }
 echo "== build WITH change"; go build ./... ; b=$?
 echo "== pinned tests WITH change (gputensor TestTensor is known to hang intermittently on the unmodified tree too: up to 3 attempts with a 150 s timeout)"
 for attempt in 1 2 3; do
-  go test -vet=off -count=1 -timeout 150s ./amd/benchmarks/dnn/gputensor ./amd/benchmarks/dnn/layers ./amd/benchmarks/dnn/tensor ./amd/bitops ./amd/emu/cdna3 ./amd/insts ./amd/kernels ./amd/timing/cp/internal/resource ./nvidia/benchmark ./nvidia/platform ./nvidia/tracereader > /tmp/confirm_pinned.log 2>&1; p=$?
+  go test -vet=off -count=1 -timeout 150s ./amd/benchmarks/dnn/gputensor ./amd/benchmarks/dnn/layers ./amd/benchmarks/dnn/tensor ./amd/bitops ./amd/emu/cdna3 ./amd/insts ./amd/kernels ./amd/timing/cp/internal/resource ./nvidia/benchmark ./nvidia/platform ./nvidia/tracereader > /tmp/confirm_$(basename $wt)_pinned.log 2>&1; p=$?
   [ $p = 0 ] && break
-  grep -q "test timed out" /tmp/confirm_pinned.log || break
+  grep -q "test timed out" /tmp/confirm_$(basename $wt)_pinned.log || break
   echo "   attempt $attempt timed out, retrying"
 done
-grep -v "^ok" /tmp/confirm_pinned.log | grep -a "FAIL\|panic: test timed" | head -5
-echo "== demo WITH change"; timeout 600 go test -vet=off -count=1 $demo > /tmp/confirm_with.log 2>&1; d=$?; tail -5 /tmp/confirm_with.log
+grep -v "^ok" /tmp/confirm_$(basename $wt)_pinned.log | grep -a "FAIL\|panic: test timed" | head -5
+echo "== demo WITH change"; timeout 600 go test -vet=off -count=1 $demo > /tmp/confirm_$(basename $wt)_with.log 2>&1; d=$?; tail -5 /tmp/confirm_$(basename $wt)_with.log
 git apply -R _deliver/patch.diff
 echo "RESULT demo_without_exit=$w build_exit=$b pinned_exit=$p demo_with_exit=$d  => $([ $w = 0 ] && [ $b = 0 ] && [ $p = 0 ] && [ $d != 0 ] && echo CONFIRMED || echo NOT-CONFIRMED)"
